@@ -1296,8 +1296,8 @@ class Face3D(Base2DIn3D):
                     pass
 
         # rebuild the Face3D from the results and return them
-        if len(split_faces) == 1:
-            return split_faces
+        if len(split_faces) <= 1:
+            return None  # not split (a lone cycle is the boundary without the holes)
         return Face3D.merge_faces_to_holes(split_faces, tolerance)
 
     def split_with_polyline(self, polyline, tolerance):
@@ -1361,8 +1361,8 @@ class Face3D(Base2DIn3D):
                     pass
 
         # rebuild the Face3D from the results and return them
-        if len(split_faces) == 1:
-            return split_faces
+        if len(split_faces) <= 1:
+            return None  # not split (a lone cycle is the boundary without the holes)
         return Face3D.merge_faces_to_holes(split_faces, tolerance)
 
     def split_with_lines(self, lines, tolerance):
@@ -1428,8 +1428,8 @@ class Face3D(Base2DIn3D):
                     pass
 
         # rebuild the Face3D from the results and return them
-        if len(split_faces) == 1:
-            return split_faces
+        if len(split_faces) <= 1:
+            return None  # not split (a lone cycle is the boundary without the holes)
         return Face3D.merge_faces_to_holes(split_faces, tolerance)
 
     def intersect_line_ray(self, line_ray):
